@@ -24,7 +24,9 @@ SRC = {
           "x = 1\ny = 2\nz = 3",                    # 4 drop final newline
           "x = 10\ny = 2\nz = 3\n",                 # 5 edit first line
           "completely unrelated replacement text\nwith nothing shared at all\n",  # 6 dissimilar
-          ""],                                     # 7 emptied
+          "",                                      # 7 emptied
+          "x = 1\ninserted = 0\ny = 2\nz = 3\n",      # 8 insert a line before 'y = 2'
+          "x = 1\nz = 3\n"],                          # 9 delete the line 'y = 2'
     "B": ["import numpy as np\nnp.random.seed(0)\ndata = np.arange(10)\n",
           "import numpy as np\nnp.random.seed(1)\ndata = np.arange(10)\n",
           "import numpy as np\nnp.random.seed(42)\ndata = np.arange(10)\n",
@@ -58,7 +60,31 @@ SRC = {
           "<<<<<<< local\ncaf\u00e9 \u4e2d\u6587\n=======\n>>>>>>> remote\n\\ No newline at end of file\nend\n",
           "something else entirely, nothing in common at all\n",
           ""],
-    "S": ["a=1\n", "a=2\n", "a=3\n", "a=1\nb\n", "a=1", "b=1\n", "zzzzzzzzzzzzzzzzzzzzzzz\n", ""],   # short (<10 chars): always 'similar'
+    # ten lines: two separate regions can conflict in one cell (git merge-file
+    # then exits with status 2)
+    "L": ["".join("line %d = %d\n" % (i, i) for i in range(1, 11)),
+          "".join("line %d = %s\n" % (i, "L1" if i in (1, 9) else i) for i in range(1, 11)),     # 1: lines 1 and 9, one way
+          "".join("line %d = %s\n" % (i, "R2" if i in (1, 9) else i) for i in range(1, 11)),     # 2: lines 1 and 9, other way
+          "".join("line %d = %d\n" % (i, i) for i in range(1, 11)) + "appended = 11\n",         # 3: append
+          "".join("line %d = %d\n" % (i, i) for i in range(1, 11))[:-1],                        # 4: no final newline
+          "".join("line %d = %s\n" % (i, "one" if i == 1 else i) for i in range(1, 11)),         # 5: first line only
+          "nothing of the original ten lines is left in this replacement text\nat all\n",       # 6: dissimilar
+          "",                                                                                   # 7: emptied
+          "".join(("before five = 0\n" if i == 5 else "") + "line %d = %d\n" % (i, i) for i in range(1, 11)),  # 8: insert before line 5
+          "".join("line %d = %d\n" % (i, i) for i in range(1, 11) if i != 5)],                   # 9: delete line 5
+    # line separators that str.splitlines honours beyond \n: VT FF FS GS RS NEL LS PS
+    "U": ["a = 1\x0bb = 2\x0cc = 3\nd = 4\u2028e = 5\u2029f = 6\x85g = 7\n",
+          "a = 1\x0bb = 2\x0cc = 3\nd = 4\u2028e = 55\u2029f = 6\x85g = 7\n",
+          "a = 1\x0bb = 2\x0cc = 3\nd = 4\u2028e = 555\u2029f = 6\x85g = 7\n",
+          "a = 1\x0bb = 2\x0cc = 3\nd = 4\u2028e = 5\u2029f = 6\x85g = 7\nh = 8\x1ci = 9\n",
+          "a = 1\x0bb = 2\x0cc = 3\nd = 4\u2028e = 5\u2029f = 6\x85g = 7",
+          "a = 10\x0bb = 2\x0cc = 3\nd = 4\u2028e = 5\u2029f = 6\x85g = 77\n",
+          "no separators of that kind in this replacement, which is dissimilar\n",
+          "",
+          "a = 1\x0bnew = 0\x0bb = 2\x0cc = 3\nd = 4\u2028e = 5\u2029f = 6\x85g = 7\n",
+          "a = 1\x0bb = 2\x0cc = 3\nd = 4\u2029f = 6\x85g = 7\n"],
+    "S": ["a=1\n", "a=2\n", "a=3\n", "a=1\nb\n", "a=1", "b=1\n", "zzzzzzzzzzzzzzzzzzzzzzz\n", "",
+          "n\na=1\n", "\n"],   # short (<10 chars): always 'similar'
 }
 
 # inserted cells: N1/N1s are mutually similar (ratio > 0.7) but not identical,
@@ -68,6 +94,8 @@ NEW_SRC = {
     "N1s": "def helper(values):\n    return sorted(values)[:5]\n",
     "N2": "plt.figure(figsize=(4, 4))\nplt.plot(range(10))\nplt.show()\n",
     "Nm": "### A new markdown section\n\nwith a sentence of explanation.\n",
+    "N3": "class Widget(object):\n    colour = 'green'\n",
+    "N4": "%%bash\nls -la /srv/data | wc -l\n",
 }
 
 STREAM = ["1\n2\n3\n", "1\n2\n4\n", "1\n2\n5\n", "1\n2\n3\n4\n", "entirely other output text, long enough\n"]
@@ -139,6 +167,12 @@ def mk_output(ctx, kind, tag):
         return {"output_type": "display_data",
                 "data": {"image/png": B64[0], "text/plain": PLAIN[3]},
                 "metadata": {"image/png": {"width": ctx.md(tag)}}}
+    if kind == "display_empty":
+        return {"output_type": "display_data", "data": {}, "metadata": {}}
+    if kind == "html_upper":
+        # mime keys are not required to be lower case
+        return {"output_type": "display_data",
+                "data": {"text/HTML": "<b>bold</b>\n<i>it</i>\n", "text/plain": "bold it"}, "metadata": {}}
     if kind == "json_obj":
         return {"output_type": "display_data",
                 "data": {"application/json": {"k": ctx.num(tag), "l": [1, 2]},
@@ -169,6 +203,10 @@ def mk_cell(ctx, tmpl, tag, idx=None):
         md["collapsed"] = False
     if tmpl.get("tags"):
         md["tags"] = list(tmpl["tags"])
+    if tmpl.get("scrolled"):
+        md["scrolled"] = False
+    if tmpl.get("lol"):
+        md["lol"] = [[ctx.md(tag)], [2, 3]]
     cell = {"cell_type": t, "metadata": md, "source": tmpl.get("text") or SRC[tmpl["src"]][0]}
     if t == "code":
         cell["execution_count"] = ctx.ec(tag)
@@ -204,6 +242,12 @@ TEMPLATES = {
     "codeS": dict(type="code", src="S", outputs=["stream"], md=0),
     "codeP": dict(type="code", src="P", outputs=[], md=0),
     "codeT": dict(type="code", src="B", outputs=["stream"], md=0, tags=["a", "b"]),
+    "codeL": dict(type="code", src="L", outputs=[], md=0),
+    "codeU": dict(type="code", src="U", outputs=["stream"], md=0),
+    "codeEmp": dict(type="code", src="A", outputs=["display_empty", "stream"], md=0),
+    "codeMime": dict(type="code", src="B", outputs=["html_upper"], md=0),
+    "codeTr": dict(type="code", src="B", outputs=["result"], md=0, collapsed=True, scrolled=True),
+    "codeLol": dict(type="code", src="A", outputs=[], md=0, lol=True),
     "md": dict(type="markdown", src="M", md=1, att=False),
     "mdAtt": dict(type="markdown", src="M", md=0, att=True),
     "raw": dict(type="raw", src="R", md=1),
@@ -214,6 +258,8 @@ NEW_TEMPLATES = {
     "N1s": dict(type="code", text=NEW_SRC["N1s"], outputs=["stream"], md=1),
     "N2": dict(type="code", text=NEW_SRC["N2"], outputs=[], md=0),
     "Nm": dict(type="markdown", text=NEW_SRC["Nm"], md=0),
+    "N3": dict(type="code", text=NEW_SRC["N3"], outputs=[], md=0),
+    "N4": dict(type="raw", text=NEW_SRC["N4"], md=0),
     # similar markdown cells whose attachments differ (same name, other content / other name)
     "NmA": dict(type="markdown", text=NEW_SRC["Nm"], md=0, att=True),
     "NmB": dict(type="markdown", text=NEW_SRC["Nm"] + "More.\n", md=1, att="other"),
@@ -222,9 +268,10 @@ NEW_TEMPLATES = {
 
 # ------------------------------------------------------------------- actions
 # action name -> applies to cell types
-CODE_ACTIONS = ["keep", "del", "src1", "src2", "src3", "src4", "src6", "src7", "rerun", "ec",
-                "out_edit", "out_edit2", "out_clear", "out_add", "out_add2", "out_del", "out_ptr",
-                "tag_front", "tag_back",
+CODE_ACTIONS = ["keep", "del", "src1", "src2", "src3", "src4", "src6", "src7", "src8", "src9", "rerun", "ec",
+                "out_edit", "out_edit2", "out_clear", "out_add", "out_add2", "out_add_front", "out_del",
+                "out_del_last", "out_ec", "out_ptr", "tag_front", "tag_back", "md_scrolled_true",
+                "md_scrolled_auto", "md_del_collapsed", "md_shift",
                 "md_edit", "md_add", "md_del", "md_collapsed", "id", "dup", "to_md"]
 MD_ACTIONS = ["keep", "del", "src1", "src2", "src3", "src4", "src6", "md_edit", "md_add",
               "att_add", "att_del", "att_edit", "att_rename", "id", "dup"]
@@ -241,7 +288,9 @@ def _edit_output(ctx, out, variant, tag):
             out["evalue"] = "other"
     else:
         data = dict(out["data"])
-        if "application/json" in data:
+        if "text/HTML" in data:
+            data["text/HTML"] = "<b>bold</b>\n<i>IT</i>\n" if variant == 1 else "<u>other</u>\n"
+        elif "application/json" in data:
             js = data["application/json"]
             if isinstance(js, dict):
                 js = dict(js)
@@ -250,8 +299,15 @@ def _edit_output(ctx, out, variant, tag):
                     js["new"] = ctx.num(tag)
             elif isinstance(js, list):
                 js = list(js)
-                if isinstance(js[0], list):
-                    js[0] = [ctx.num(tag)] + ([ctx.num(tag)] if variant == 2 else [])
+                if variant == 2:
+                    # a new first row shifts the others; the old first row gets a fresh
+                    # leaf (which may coincide with the old one up to its JSON type)
+                    if isinstance(js[0], list):
+                        js = [[99, 98]] + [[ctx.num(tag)]] + js[1:]
+                    else:
+                        js = [{"j": 0}] + [{"k": ctx.num(tag)}] + js[1:]
+                elif isinstance(js[0], list):
+                    js[0] = [ctx.num(tag)]
                 else:
                     js[0] = {"k": ctx.num(tag)}
             else:
@@ -280,6 +336,8 @@ def apply_action(ctx, cell, action, tag):
         k = int(action[3:])
         if fam is None:
             c["source"] = cell["source"] + "# edited %d\n" % k
+        elif k >= len(SRC[fam]):
+            return [cell]
         else:
             c["source"] = SRC[fam][k]
         return [c]
@@ -332,6 +390,26 @@ def apply_action(ctx, cell, action, tag):
             return [cell]
         c["outputs"] = list(cell["outputs"]) + [mk_output(ctx, "stderr", tag)]
         return [c]
+    if action == "out_add_front":
+        if t != "code":
+            return [cell]
+        c["outputs"] = [mk_output(ctx, "stderr", tag)] + list(cell["outputs"])
+        return [c]
+    if action == "out_ec":
+        # only the execution count of the last execute_result changes (transient)
+        if t != "code" or not cell["outputs"] or cell["outputs"][-1]["output_type"] != "execute_result":
+            return [cell]
+        outs = list(cell["outputs"])
+        o = copy.copy(outs[-1])
+        o["execution_count"] = ctx.ec(tag)
+        outs[-1] = o
+        c["outputs"] = outs
+        return [c]
+    if action == "out_del_last":
+        if t != "code" or not cell["outputs"]:
+            return [cell]
+        c["outputs"] = list(cell["outputs"])[:-1]
+        return [c]
     if action == "out_add2":
         if t != "code":
             return [cell]
@@ -364,6 +442,22 @@ def apply_action(ctx, cell, action, tag):
         md = dict(cell["metadata"])
         if md:
             del md[sorted(md)[0]]
+        c["metadata"] = md
+        return [c]
+    if action in ("md_scrolled_true", "md_scrolled_auto"):
+        md = dict(cell["metadata"])
+        md["scrolled"] = True if action == "md_scrolled_true" else "auto"
+        c["metadata"] = md
+        return [c]
+    if action == "md_del_collapsed":
+        md = dict(cell["metadata"])
+        md.pop("collapsed", None)
+        c["metadata"] = md
+        return [c]
+    if action == "md_shift":
+        md = dict(cell["metadata"])
+        if "lol" in md:
+            md["lol"] = [[9, 9]] + [[ctx.md(tag)]] + list(md["lol"][1:])
         c["metadata"] = md
         return [c]
     if action == "md_collapsed":
